@@ -37,6 +37,7 @@ from harness.gen.c09_hist import gen_case, build_inputs, gen_interleaved_case, b
 from harness.gen.c09_file import gen_file_case, build_file
 from harness.gen import c09_fileops as F
 from harness.gen import c09_layout as LAY
+from harness.gen import c09_text as T
 
 RULE = ("one history of 6 CLI runs (phase with PS, phase with HP, re-phase of the phased file with the other tag "
         "(optionally a sample subset), unphase, phase again, phase with the phased VCF as only phase input) over a "
@@ -236,6 +237,7 @@ class Hist:
             self.fail(f"output VCF cannot be parsed by htslib ({e}); NUL byte in the file: {nul}", "output-unparsable", name)
             return None
         ctx.validated(len(run["trace"]))
+        check_text_columns(ctx, self.case, run["out"])
         elig = eligible_first(recs, o["only_snvs"])
         exp = expected_phases(run["trace"])
         targets = run["targets"] or samples
@@ -969,16 +971,187 @@ def run_haplotagphase_case(ctx, case, n):
     shutil.rmtree(d, ignore_errors=True)
 
 
+# ------------------------------------------------------------------------------------------------
+# round 10: text level, passthrough, indexed fetch
+# ------------------------------------------------------------------------------------------------
+
+def _canon_text(res):
+    """model / real outcome of one column -> comparable value"""
+    if "error" in res:
+        return ("error", res["error"])
+    return ("ok", json.dumps(res.get("hp"), sort_keys=True), json.dumps(res.get("gtps"), sort_keys=True))
+
+
+def check_text_columns(ctx, case, path, limit=120):
+    """every sample column of a VCF (whatshap output): the raw text through Lean `c09.text` == the real extractors on the
+    pysam record"""
+    import pysam
+    lines = [ln.rstrip("\n").split("\t") for ln in open(path) if not ln.startswith("#")]
+    reqs, reals = [], []
+    try:
+        vf = pysam.VariantFile(path)
+    except (OSError, ValueError):
+        return
+    with vf:
+        for cols, rec in zip(lines, vf):
+            if len(reqs) >= limit:
+                break
+            keys = cols[8].split(":")
+            nal = 1 + (0 if cols[4] == "." else len(cols[4].split(",")))
+            for si, col in enumerate(cols[9:]):
+                vals = col.split(":")
+                req = {"op": "c09.text", "nal": nal, "gt": None, "ps": None, "hp": "absent"}
+                for i, k in enumerate(keys):
+                    dropped = i >= len(vals)
+                    if k == "GT":
+                        req["gt"] = "." if dropped else vals[i]
+                    elif k == "PS":
+                        req["ps"] = "." if dropped else vals[i]
+                    elif k == "HP":
+                        req["hp"] = "dropped" if dropped else {"t": vals[i]}
+                reqs.append(req)
+                reals.append(T.real_decode_record(rec, si))
+    for req, real, ans in zip(reqs, reals, ctx.model.ask_many(reqs)):
+        ctx.evaluated()
+        if _canon_text(real) != _canon_text(ans["res"]):
+            ctx.disagree("c09.text (CLI column)", case, {"col": req, "real": real}, ans["res"])
+        ctx.dist("text_cli_column", "hp" if real.get("hp") else "gtps" if real.get("gtps") else real.get("error", "none"))
+
+
+def run_text_case(ctx, case, n):
+    import random
+    rng = random.Random(case["gen_seed"])
+    d = ctx.workdir()
+    os.makedirs(d, exist_ok=True)
+    path = os.path.join(d, f"text{n}.vcf")
+    cols = [T.gen_column(rng) for _ in range(case.get("n_cols", 60))]
+    answers = ctx.model.ask_many([c["req"] for c in cols])
+    for c, ans in zip(cols, answers):
+        real = T.real_decode_column(path, c["alts"], c["format"], c["col"])
+        ctx.evaluated()
+        kind = real.get("error", "ok")
+        ctx.dist("text_outcome", kind)
+        if _canon_text(real) != _canon_text(ans["res"]):
+            ctx.disagree("c09.text", dict(case, column=[c["alts"], c["format"], c["col"]]), real, ans)
+        elif real.get("hp") or real.get("gtps"):
+            ctx.nontrivial(("text", case["gen_seed"], c["format"], c["col"]))
+    # the writer's tokens: real _set_HP / _set_PS on a pysam record == Lean render; written text decodes to what was written
+    for _ in range(case.get("n_set", 12)):
+        comp = rng.choice([0, rng.randrange(0, 50), rng.randrange(0, 3_000_000), 2147483646])
+        tag = rng.choice(["HP", "PS"])
+        if tag == "HP":
+            phase = rng.choice([[0, 1], [1, 0], [0, 1], [1, 0], [0, 0], [1, 1, 0], [0, 1, 1, 0], [1]])
+        else:
+            phase = [rng.randrange(0, 4) for _ in range(rng.choice([1, 2, 2, 2, 3, 4]))]
+        toks = T.real_set_tokens(path, comp, phase, tag)
+        ans = ctx.model.ask("c09.render", pairs=[[comp + 1, a + 1] for a in phase], ps=comp + 1, gt=phase, phased=True)
+        ctx.evaluated()
+        want = {"HP": ans["hp"]} if tag == "HP" else {"PS": ans["ps"], "GT": ans["gt"]}
+        got = {k: toks.get(k) for k in want}
+        if got != want:
+            ctx.disagree("c09.render", dict(case, comp=comp, phase=phase, tag=tag), got, want)
+        # property at token level: the text the encoder wrote decodes (through htslib, pysam and the real decoder) to the statement
+        if tag == "HP" and sorted(phase) == [0, 1]:
+            real = T.real_decode_column(path, "C,G,T", "GT:HP", "0/1:" + toks["HP"])
+            exp = {"hp": {"block": comp + 1, "alleles": phase}, "gtps": None}
+        elif tag == "PS" and len(set(phase)) > 1:
+            real = T.real_decode_column(path, "C,G,T", "GT:PS", toks["GT"] + ":" + toks["PS"])
+            exp = {"hp": None, "gtps": {"block": comp + 1, "alleles": phase}}
+        else:
+            continue
+        if real != exp:
+            ctx.fail(f"the text written by _set_{tag} for component {comp}, phase {phase} ({toks}) decodes to {real}, not to what was written",
+                     dict(case, comp=comp, phase=phase, tag=tag), key="text-roundtrip")
+    if os.path.exists(path):
+        os.remove(path)
+
+
+def run_passthrough_case(ctx, case, n):
+    import random
+    rng = random.Random(case["gen_seed"])
+    g = T.gen_passthrough(rng)
+    d = os.path.join(ctx.workdir(), f"pt{n}")
+    real = T.real_passthrough(d, g["file"], g["plan"])
+    shutil.rmtree(d, ignore_errors=True)
+    ans = ctx.model.ask("c09.passthrough", file=g["file"], plan=g["plan"])
+    ctx.evaluated()
+    ctx.dist("passthrough_outcome", real.get("error", "ok"))
+    if "error" in ans or "error" in real:
+        if ans.get("error") != real.get("error"):
+            ctx.disagree("c09.passthrough (outcome)", dict(case, **g), real.get("error", "ok"), ans.get("error", "ok"))
+        return
+    # the stale `_unprocessed_record` that a repeated call yields again is the SAME pysam object an earlier `write` modified in
+    # place (the model's records are values): a record once handed to `write` stays modified
+    exp, touched = [], set()
+    for out in ans["outs"]:
+        for i in out:
+            if i >= 1000000:
+                touched.add(i % 1000000)
+            exp.append(T.passthrough_line(i % 1000000, g["file"][i % 1000000], (i % 1000000) in touched))
+    if exp != real["body"]:
+        ctx.disagree("c09.passthrough", dict(case, **g), real["body"], exp)
+    # oracle (no model): on a plan that visits every contig once in file order the records of a write_unchanged contig come
+    # out byte-identical and in place, those of a written contig lose their phase
+    contigs = [c for i, c in enumerate(g["file"]) if i == 0 or g["file"][i - 1] != c]
+    if [c for c, _ in g["plan"]] == contigs:
+        mode = dict((c, w) for c, w in g["plan"])
+        want = [T.passthrough_line(i, c, mode[c]) for i, c in enumerate(g["file"])]
+        if want != real["body"]:
+            bad = next((k for k, (a, b) in enumerate(zip(want, real["body"])) if a != b), min(len(want), len(real["body"])))
+            ctx.fail(f"write_unchanged / write over the contigs {g['plan']}: output record {bad} differs from the expected one "
+                     f"({len(real['body'])} records written, {len(want)} expected)", dict(case, **g), key="write-unchanged")
+        if any(not w for _, w in g["plan"]):
+            ctx.nontrivial(("passthrough", case["gen_seed"]))
+
+
+def run_fetch_case(ctx, case, n):
+    import random
+    from whatshap.vcf import VcfReader
+    rng = random.Random(case["gen_seed"])
+    g = T.gen_fetch(rng)
+    d = os.path.join(ctx.workdir(), f"fetch{n}")
+    gz = T.build_indexed(d, g["sites"], rng)
+    try:
+        with VcfReader(gz, phases=True) as r:
+            it = {t.chromosome: T.table_json(t) for t in r}
+        for c in g["contigs"]:
+            with VcfReader(gz, phases=True) as r:
+                ft = T.table_json(r.fetch(c))
+            ctx.evaluated()
+            if c in it and ft != it[c]:
+                ctx.fail(f"VcfReader.fetch({c!r}) returns {len(ft[1])} variants {ft[1][:3]}…, the iteration {len(it[c][1])} {it[c][1][:3]}… "
+                         f"(sites {[(s[1] + 1, s[2]) for s in g['sites'] if s[0] == c][:6]}…)", dict(case, **g), key="fetch-vs-iterate")
+            if c in it and any(s[0] == c and s[1] == 0 for s in g["sites"]) and any(s[0] == c and s[1] == 99999 for s in g["sites"]):
+                ctx.nontrivial(("fetch", case["gen_seed"], c))
+            # record level: htslib's region query == Lean fetchRecs, for fetch() itself and for arbitrary regions
+            with VcfReader(gz) as r:
+                ids = [[int(rec.id[1:]) for rec in r._fetch(c)]] + [[int(rec.id[1:]) for rec in r._fetch(c, start=s, end=e)] for s, e in g["regions"]]
+            answers = ctx.model.ask_many([{"op": "c09.fetch", "sites": g["sites"], "chrom": c, "regions": [reg]} for reg in g["regions"]])
+            if ids[0] != answers[0]["fetch"]:
+                ctx.disagree("c09.fetch", dict(case, **g, chrom=c), ids[0], answers[0]["fetch"])
+            for reg, real, ans in zip(g["regions"], ids[1:], answers):
+                if real != ans["regions"]:
+                    ctx.disagree("c09.fetch (region)", dict(case, **g, chrom=c, region=reg), real, ans["regions"])
+        with VcfReader(gz) as r:
+            runs = [[c, [int(rec.id[1:]) for rec in recs]] for c, recs in __import__("itertools").groupby(r._vcf_reader, lambda rec: rec.chrom)]
+        ans = ctx.model.ask("c09.fetch", sites=g["sites"], chrom=g["contigs"][0], regions=[])
+        if runs != ans["runs"]:
+            ctx.disagree("c09.fetch (runs)", dict(case, **g), runs, ans["runs"])
+    finally:
+        shutil.rmtree(d, ignore_errors=True)
+
+
 def run(ctx):
     cases = [c for _, c in ctx.corpus()]
     if ctx.replay:
         cases = [json.load(open(ctx.replay))["case"]]
     n = 0
     for c in cases:
-        {"interleaved": run_interleaved, "file": run_file_case, "haplotagphase": run_haplotagphase_case}.get(c.get("kind"), run_case)(ctx, c, n); n += 1
+        {"interleaved": run_interleaved, "file": run_file_case, "haplotagphase": run_haplotagphase_case, "text": run_text_case,
+         "passthrough": run_passthrough_case, "fetch": run_fetch_case}.get(c.get("kind"), run_case)(ctx, c, n); n += 1
     if ctx.replay:
         return
-    streams = os.environ.get("C09_STREAMS", "hist,inter,table,stack,file,htp").split(",")     # development aid: run a subset of the streams
+    streams = os.environ.get("C09_STREAMS", "hist,inter,table,stack,file,htp,text,pass,fetch").split(",")     # development aid: run a subset of the streams
     for _ in range((8 if ctx.quick else 60) * ctx.scale if "hist" in streams else 0):
         run_case(ctx, gen_case(ctx.rng, scale=1 if ctx.quick else 2), n); n += 1
     # generator-written phase inputs with interleaved / nested phase sets: run Q + in-process pseudo reads
@@ -994,6 +1167,12 @@ def run(ctx):
         run_file_case(ctx, gen_file_case(ctx.rng, ctx.quick), n); n += 1
     for k in range((2 if ctx.quick else 20) * ctx.scale if "htp" in streams else 0):
         run_haplotagphase_case(ctx, {"kind": "haplotagphase", "gen_seed": ctx.rng.randrange(1 << 40), "tag": ["HP", "PS"][k % 2]}, n); n += 1
+    for _ in range((5 if ctx.quick else 60) * ctx.scale if "text" in streams else 0):
+        run_text_case(ctx, {"kind": "text", "gen_seed": ctx.rng.randrange(1 << 40), "n_cols": 60, "n_set": 12}, n); n += 1
+    for _ in range((40 if ctx.quick else 600) * ctx.scale if "pass" in streams else 0):
+        run_passthrough_case(ctx, {"kind": "passthrough", "gen_seed": ctx.rng.randrange(1 << 40)}, n); n += 1
+    for _ in range((12 if ctx.quick else 200) * ctx.scale if "fetch" in streams else 0):
+        run_fetch_case(ctx, {"kind": "fetch", "gen_seed": ctx.rng.randrange(1 << 40)}, n); n += 1
     if os.environ.get("C09_DEBUG"):                     # development aid: all disagreements, not only the first
         import collections
         cnt = collections.Counter(op for op, _, _, _ in ctx.disagreements)
